@@ -347,3 +347,82 @@ def write_evidence(prop: str, tier: str, seed: int, coverage: dict, assumptions,
         "violations": violations,
     }
     (EVIDENCE / f"{prop}.json").write_text(json.dumps(ev, indent=1, default=repr))
+
+
+# ---------------------------------------------------------------------------- reading a val back (debugging aid)
+def parse_val(text: str):
+    """Parse the `= VL [...] : val` printed by coq_show into nested Python lists
+    (VZ -> int, VB -> bytes, VS -> str, VL -> list)."""
+    m = re.search(r"=\s*(.*?):\s*val\s*$", text, re.S)
+    src = m.group(1) if m else text
+    src = re.sub(r"%[NZ]", "", src)
+    toks = re.findall(r'"(?:[^"]|"")*"|\[|\]|;|\(|\)|-?\d+|[A-Za-z_]+', src)
+    pos = 0
+
+    def parse():
+        nonlocal pos
+        t = toks[pos]
+        if t == "(":
+            pos += 1
+            v = parse()
+            assert toks[pos] == ")"
+            pos += 1
+            return v
+        if t in ("VZ", "VB", "VS", "VL"):
+            pos += 1
+            arg = parse()
+            if t == "VB":
+                return bytes(arg) if all(0 <= x < 256 for x in arg) else ("points", arg)
+            return arg
+        if t == "[":
+            pos += 1
+            items = []
+            while toks[pos] != "]":
+                items.append(parse())
+                if toks[pos] == ";":
+                    pos += 1
+            pos += 1
+            return items
+        if t == "nil":
+            pos += 1
+            return []
+        if t.startswith('"'):
+            pos += 1
+            return t[1:-1].replace('""', '"')
+        pos += 1
+        return int(t)
+
+    return parse()
+
+
+def canon(o):
+    """Python observation in the same shape parse_val produces."""
+    if o is None:
+        return []
+    if isinstance(o, bool):
+        return 1 if o else 0
+    if isinstance(o, int):
+        return o
+    if isinstance(o, (bytes, bytearray)):
+        return bytes(o)
+    if isinstance(o, str):
+        return o if is_ident(o) else ("points", [ord(c) for c in o])
+    if isinstance(o, U):
+        pts = [ord(c) for c in o.s]
+        return bytes(pts) if all(p < 256 for p in pts) else ("points", pts)
+    return [canon(x) for x in o]
+
+
+def first_diff(a, b, path=()):
+    """Path and values of the first difference between two canonical observations."""
+    if isinstance(a, list) and isinstance(b, list):
+        for i, (x, y) in enumerate(zip(a, b)):
+            d = first_diff(x, y, path + (i,))
+            if d:
+                return d
+        if len(a) != len(b):
+            return (path, f"length {len(a)} vs {len(b)}", a[len(b):][:2] if len(a) > len(b) else b[len(a):][:2])
+        return None
+    if a != b:
+        return (path, a, b)
+    return None
